@@ -210,6 +210,32 @@ Example c02_example_no_supported :
   choose_algorithm ex_config (match rq_params (ex_request [(-257)%Z; (-8)%Z]) with [] => [ES256; (-257)%Z] | l => l end) = None.
 Proof. reflexivity. Qed.
 
+(** *** source order of the client's registration ceremony (lists regenerated from passkey-client/src/lib.rs and
+    passkey-authenticator/src on every run): every run of the model's [register] performs its effects in the order of
+    [Client::register] with [Authenticator::make_credential] expanded to its own source skeleton - the client data is
+    typed webauthn.create and hashed before the authenticator is asked, the attestation object is assembled from the
+    four constants after it answered, and the save is the authenticator's last effect *)
+From Coq Require Import String.
+From PK Require Auth.SkeletonFacts Auth.ClientSkeletonFacts Auth.ClientSource Auth.gen.ClientSkeleton Auth.gen.Skeleton.
+Theorem c02_client_register_in_source_order : forall c domain origin q cd script,
+  SkeletonFacts.subseq (map (fun ea : eff * answer => SkeletonFacts.kind (fst ea)) (fst (interp (Client.register c domain origin q cd) script)))
+                       (ClientSkeletonFacts.cskeleton ClientSkeleton.SRC_CLIENT_REGISTER).
+Proof. exact ClientSkeletonFacts.client_register_effects_in_source_order. Qed.
+Theorem c02_client_register_source_is_the_modelled_one :
+  ClientSkeleton.SRC_CLIENT_REGISTER = ClientSource.EXP_CLIENT_REGISTER.
+Proof. exact ClientSource.src_client_register_order. Qed.
+Theorem c02_client_register_source_facts :
+  (OrderList.before "TypeCreate" "MakeCredential" ClientSkeleton.SRC_CLIENT_REGISTER = true
+  /\ OrderList.first_pos "TypeGet" ClientSkeleton.SRC_CLIENT_REGISTER = None
+  /\ OrderList.before "ClientDataHash" "MakeCredential" ClientSkeleton.SRC_CLIENT_REGISTER = true
+  /\ OrderList.before "MakeCredential" "Str fmt" ClientSkeleton.SRC_CLIENT_REGISTER = true
+  /\ OrderList.before "Str fmt" "Str none" ClientSkeleton.SRC_CLIENT_REGISTER = true
+  /\ OrderList.before "Str attStmt" "Str authData" ClientSkeleton.SRC_CLIENT_REGISTER = true
+  /\ OrderList.before "MakeCredential" "PubKeyDer" ClientSkeleton.SRC_CLIENT_REGISTER = true
+  /\ OrderList.first_pos "GetAssertion" ClientSkeleton.SRC_CLIENT_REGISTER = None
+  /\ last Skeleton.SRC_MAKE_CREDENTIAL "" = "Save")%string.
+Proof. vm_compute. repeat split. Qed.
+
 Print Assumptions c02_run_shape.
 Print Assumptions c02_client_data.
 Print Assumptions c02_json_string_round_trip.
@@ -231,3 +257,6 @@ Print Assumptions c02_id_length_clamped.
 Print Assumptions c02_store_step.
 Print Assumptions c02_error_leaves_store.
 Print Assumptions c02_sequences.
+Print Assumptions c02_client_register_in_source_order.
+Print Assumptions c02_client_register_source_is_the_modelled_one.
+Print Assumptions c02_client_register_source_facts.
